@@ -22,7 +22,7 @@ RULE = ("(a) Hypothesis rule-based state machines over ONE LGANM / NormalDistrib
         "classes and DRFNet (stand-in backend) called on generated caller-owned arrays / sets / dicts / lists: deep snapshot of "
         "every argument before == after, results do not alias arguments, writing into results changes no argument. Non-trivial = "
         "(a) a query executed after >= 1 intervened sample and >= 1 caller-side mutation; (b) a call whose result contains an "
-        "ndarray derived from an ndarray argument.")
+        "ndarray derived from an ndarray argument. Also: repeat of every sweep call after overwriting its first result and after an in-place edit of the caller's array object (vs. a call on a fresh copy), colliding intervention settings, callable-object and table-backed noise in the ANM machine, index arrays with negative entries.")
 ASSUMPTIONS = [
     "functions stored inside an ANM are atomic (as for copy.deepcopy): shared closures are not 'caller arrays'",
     "the documented output buffer of utils.cartesian is exempt",
